@@ -309,25 +309,24 @@ theorem serializeAnnotations_shape : ∀ (a : Anns), a ≠ [] → ∃ m, seriali
     refine ⟨innerOf x ++ ')' :: ' ' :: '(' :: m, ?_⟩
     rw [serializeAnnotations_cons_cons, hm, serializeAnnotation_inner]; simp
 
-def NotSectionAction (name : Str) : Prop :=
-  startsWith name (str "SECTION") = false ∧ startsWith name (str "ACTION") = false
+def NotSection (name : Str) : Prop := startsWith name (str "SECTION") = false
 
-theorem matchIdentifier_bare (name : Str) (hw : wfWord name = true) (hs : NotSectionAction name) :
+theorem matchIdentifier_bare (name : Str) (hw : wfWord name = true) (hs : NotSection name) :
     matchIdentifier (name ++ [':']) = some (IdentM.mk name (some [':']) (some []) (name.length + 1) name.length) := by
   unfold matchIdentifier
-  rw [matchSection_symbol name [] hw hs.1]
+  rw [matchSection_symbol name [] hw hs]
   simp only [matchProperty, matchSignal, matchField]
   rw [matchClassMember_symbol _ _ name [] hw (Or.inl rfl) (Or.inl rfl),
     matchClassMember_symbol _ _ name [] hw (Or.inl rfl) (Or.inr (Or.inl rfl)), matchAction_symbol name [] hw,
     matchClassMember_symbol _ _ name [] hw (Or.inl rfl) (Or.inr (Or.inr rfl)), matchSymbol_bare name hw]
   simp [identOf, groupText, groupStart, take_len_append, drop_append_len]
 
-theorem matchIdentifier_fields (name m : Str) (hw : wfWord name = true) (hs : NotSectionAction name) :
+theorem matchIdentifier_fields (name m : Str) (hw : wfWord name = true) (hs : NotSection name) :
     matchIdentifier (name ++ ':' :: ' ' :: '(' :: (m ++ [')'])) =
       some (IdentM.mk name (some [':']) (some ('(' :: (m ++ [')']))) (name.length + 2) name.length) := by
   have ht : IdentTail (' ' :: '(' :: (m ++ [')'])) := Or.inr ⟨m, rfl⟩
   unfold matchIdentifier
-  rw [matchSection_symbol name _ hw hs.1]
+  rw [matchSection_symbol name _ hw hs]
   simp only [matchProperty, matchSignal, matchField]
   rw [matchClassMember_symbol _ _ name _ hw ht (Or.inl rfl),
     matchClassMember_symbol _ _ name _ hw ht (Or.inr (Or.inl rfl)), matchAction_symbol name _ hw,
@@ -351,7 +350,7 @@ def identLine (name : Str) (a : Anns) : Str :=
   if a.isEmpty then name ++ [':'] else name ++ ':' :: ' ' :: serializeAnnotations a
 
 theorem identStep_symbol (h : Hdr) (st : BSt) (ln col : Nat) (orig : Str) (indent : Nat) (name : Str) (a : Anns)
-    (hw : wfWord name = true) (hs : NotSectionAction name) (ha : wfAnns a = true) :
+    (hw : wfWord name = true) (hs : NotSection name) (ha : wfAnns a = true) :
     identStep h st ln col orig (identLine name a) indent =
       .ok { st with inPart := some .ident, partIndent := some indent, block := some (identBlock h name a ln) } := by
   unfold identStep identLine identBlock
@@ -949,7 +948,7 @@ theorem paramImages_lines : ∀ (ps : List SPart) (ln : Nat), (∀ p ∈ ps, wfP
 
 structure WfSBlock (b : SBlock) : Prop where
   name : wfWord b.name = true
-  notSA : NotSectionAction b.name
+  notSA : NotSection b.name
   anns : wfAnns b.anns = true
   params : ∀ p ∈ b.params, wfParam p = true
   nodup : nodupKeys (b.params.map (fun p => (p.name, ()))) = true
@@ -958,19 +957,67 @@ structure WfSBlock (b : SBlock) : Prop where
 
 theorem wfSBlock_spec {b : SBlock} (h : wfSBlock b = true) : WfSBlock b := by
   simp only [wfSBlock, Bool.and_eq_true, Bool.not_eq_true', List.all_eq_true] at h
-  obtain ⟨⟨⟨⟨⟨⟨⟨h1, h2⟩, h3⟩, h4⟩, h5⟩, h6⟩, h7⟩, h8⟩ := h
-  refine ⟨h1, ⟨h2, h3⟩, h4, h5, h6, h7, ?_⟩
+  obtain ⟨⟨⟨⟨⟨⟨h1, h2⟩, h4⟩, h5⟩, h6⟩, h7⟩, h8⟩ := h
+  refine ⟨h1, h2, h4, h5, h6, h7, ?_⟩
   intro r hr
   rw [hr] at h8
   exact h8
 
+theorem hasPrefix_mem : ∀ (s p : Str), hasPrefix s p = true → ∀ c ∈ p, c ∈ s
+  | _, [], _ => fun _ hc => by cases hc
+  | [], _ :: _, h => by simp [hasPrefix] at h
+  | x :: xs, p :: ps, h => by
+    simp only [hasPrefix, Bool.and_eq_true, beq_iff_eq] at h
+    intro c hc
+    rcases List.mem_cons.mp hc with rfl | hc
+    · rw [h.1]; simp
+    · exact List.mem_cons_of_mem _ (hasPrefix_mem xs ps h.2 c hc)
+
+/-- a name made of word characters is not of the form `ACTION:Class:group.action` -/
+theorem matchActionName_word (name : Str) (hw : wfWord name = true) : matchActionName name = none := by
+  unfold matchActionName
+  cases hp : hasPrefix name (str "ACTION:") with
+  | false => rfl
+  | true =>
+    have hm := hasPrefix_mem name (str "ACTION:") hp ':' (by decide)
+    exact absurd rfl (isWord_ne ((wfWord_spec hw).2 ':' hm)).1
+
+theorem startsWith_section_colon (name : Str) (h : NotSection name) : startsWith name (str "SECTION:") = false := by
+  cases hs : startsWith name (str "SECTION:") with
+  | false => rfl
+  | true =>
+    unfold NotSection at h
+    rw [← hasPrefix_eq_isPrefixOf] at h
+    have h2 : hasPrefix name (str "SECTION:") = true := by rw [hasPrefix_eq_isPrefixOf]; exact hs
+    have : hasPrefix name (str "SECTION") = true := by
+      have hgen : ∀ (s p q : Str), hasPrefix s (p ++ q) = true → hasPrefix s p = true := by
+        intro s p
+        induction p generalizing s with
+        | nil => intros; simp [hasPrefix]
+        | cons c cs ih =>
+          intro q hq
+          cases s with
+          | nil => simp [hasPrefix] at hq
+          | cons x xs =>
+            simp only [List.cons_append, hasPrefix, Bool.and_eq_true] at hq ⊢
+            exact ⟨hq.1, ih xs q hq.2⟩
+      exact hgen name (str "SECTION") [':'] h2
+    rw [this] at h; cases h
+
 theorem bodyLines_image (b : SBlock) (n : Nat) (inds : List Str) (h : WfSBlock b) :
     bodyLines (blockImage b n inds) = bodyOf b := by
-  unfold bodyLines bodyOf blockImage
-  simp only [h.notSA.1, h.notSA.2, Bool.or_self, Bool.false_eq_true, if_false]
-  have hident : (if b.anns.isEmpty = true then b.name ++ [':'] else b.name ++ ':' :: ' ' :: serializeAnnotations b.anns)
-      = identLine b.name b.anns := rfl
-  rw [hident, paramImages_lines b.params (n + 2) h.params]
+  have hident : identifierLine (blockImage b n inds) = identLine b.name b.anns := by
+    unfold identifierLine
+    have hname : (blockImage b n inds).name = b.name := rfl
+    have hanns : (blockImage b n inds).annotations = b.anns := rfl
+    rw [hname, hanns, startsWith_section_colon b.name h.notSA, matchActionName_word b.name h.name]
+    rfl
+  unfold bodyLines
+  simp only []
+  rw [hident]
+  unfold bodyOf blockImage
+  simp only []
+  rw [paramImages_lines b.params (n + 2) h.params]
   congr 1
   congr 1
   · -- the description
